@@ -42,59 +42,90 @@ mod kani_c11 {
         std::backtrace::Backtrace::disabled()
     }
 
-    /// explicit id (any u64), then an automatic one, then a duplicate of the explicit one
+    fn is_ok_forget<T>(r: AnyResult<T>) -> bool {
+        let ok = r.is_ok();
+        core::mem::forget(r);
+        ok
+    }
+
+    /// an explicitly chosen id (any u64) is honoured and served; zero is rejected without change
     #[kani::proof]
-    #[kani::unwind(6)]
+    #[kani::unwind(4)]
     #[kani::stub(std::fmt::format, stub_fmt)]
     #[kani::stub(std::backtrace::Backtrace::capture, stub_bt)]
-    fn c11_explicit_then_auto_then_duplicate() {
+    fn c11_explicit_id_honoured_zero_rejected() {
         let mut k = keeper();
         let id1: u64 = kani::any();
         let r1 = k.store_code_with_id(Addr::unchecked("c"), id1, Box::new(NoCode));
+        kani::cover!(id1 == 0, "zero id");
+        kani::cover!(id1 == u64::MAX, "largest id");
         if id1 == 0 {
-            // zero is rejected and nothing is stored
             assert!(r1.is_err());
             assert!(k.code_data.is_empty());
-            core::mem::forget(r1);
-            core::mem::forget(k);
-            return;
+        } else {
+            assert!(matches!(r1, Ok(x) if x == id1), "an explicitly chosen id is honoured");
+            assert!(k.code_data.len() == 1);
+            assert!(is_ok_forget(k.contract_code(id1)), "stored code is usable under its id");
         }
-        assert!(matches!(r1, Ok(x) if x == id1), "an explicitly chosen id is honoured");
-        assert!(k.contract_code(id1).is_ok(), "stored code is usable under its id");
-        // the same id again is rejected and changes nothing
-        let r_dup = k.store_code_with_id(Addr::unchecked("c"), id1, Box::new(NoCode));
-        assert!(r_dup.is_err());
-        assert!(k.code_data.len() == 1);
+        core::mem::forget(r1);
+        core::mem::forget(k);
+    }
+
+    /// the automatic id is one more than the largest id in use; none is left after u64::MAX
+    #[kani::proof]
+    #[kani::unwind(4)]
+    #[kani::stub(std::fmt::format, stub_fmt)]
+    #[kani::stub(std::backtrace::Backtrace::capture, stub_bt)]
+    fn c11_auto_id_is_largest_plus_one() {
+        let mut k = keeper();
+        let id1: u64 = kani::any();
+        kani::assume(id1 != 0);
+        let r1 = k.store_code_with_id(Addr::unchecked("c"), id1, Box::new(NoCode));
+        core::mem::forget(r1);
+        kani::cover!(id1 == u64::MAX, "exhausted");
+        kani::cover!(id1 > 1 && id1 < u64::MAX, "non-contiguous id");
         if id1 != u64::MAX {
-            kani::cover!(true, "auto id after explicit id");
             let id2 = k.store_code(Addr::unchecked("c"), Box::new(NoCode));
             assert!(id2 == id1 + 1, "automatic id is one more than the largest id in use");
-            assert!(k.contract_code(id2).is_ok());
-            let r3 = k.duplicate_code(id1);
-            match r3 {
-                Ok(id3) => {
-                    assert!(id3 != id1 && id3 != id2);
-                    assert!(id2 == u64::MAX || id3 == id2 + 1);
-                    assert!(k.contract_code(id3).is_ok());
-                }
-                Err(_) => assert!(id2 == u64::MAX, "duplicate_code fails only when ids are exhausted"),
-            }
-            core::mem::forget(r3);
+            assert!(is_ok_forget(k.contract_code(id2)));
+            assert!(is_ok_forget(k.contract_code(id1)));
         } else {
-            // no automatic id is left after u64::MAX
             assert!(k.next_code_id().is_none());
-            let r3 = k.duplicate_code(id1);
-            assert!(r3.is_err());
-            core::mem::forget(r3);
+            assert!(!is_ok_forget(k.duplicate_code(id1)), "no id is left after u64::MAX");
+            assert!(k.code_data.len() == 1);
         }
-        core::mem::forget(r_dup);
+        core::mem::forget(k);
+    }
+
+    /// a duplicate of an explicit id is rejected and changes nothing; duplicate_code gets a fresh id
+    #[kani::proof]
+    #[kani::unwind(4)]
+    #[kani::stub(std::fmt::format, stub_fmt)]
+    #[kani::stub(std::backtrace::Backtrace::capture, stub_bt)]
+    fn c11_duplicate_id_rejected_duplicate_code_fresh() {
+        let mut k = keeper();
+        let id1: u64 = kani::any();
+        kani::assume(id1 != 0 && id1 != u64::MAX);
+        let r1 = k.store_code_with_id(Addr::unchecked("c"), id1, Box::new(NoCode));
         core::mem::forget(r1);
+        assert!(!is_ok_forget(k.store_code_with_id(Addr::unchecked("c"), id1, Box::new(NoCode))));
+        assert!(k.code_data.len() == 1 && k.code_base.len() == 1);
+        let r3 = k.duplicate_code(id1);
+        kani::cover!(true, "reached");
+        assert!(matches!(r3, Ok(x) if x == id1 + 1));
+        assert!(is_ok_forget(k.contract_code(id1 + 1)));
+        // duplicating an unknown id or zero fails
+        let q: u64 = kani::any();
+        if q != id1 && q != id1 + 1 {
+            assert!(!is_ok_forget(k.duplicate_code(q)));
+        }
+        core::mem::forget(r3);
         core::mem::forget(k);
     }
 
     /// two explicit ids in any order: the automatic id follows the larger one
     #[kani::proof]
-    #[kani::unwind(6)]
+    #[kani::unwind(4)]
     #[kani::stub(std::fmt::format, stub_fmt)]
     #[kani::stub(std::backtrace::Backtrace::capture, stub_bt)]
     fn c11_two_explicit_then_auto() {
@@ -102,23 +133,14 @@ mod kani_c11 {
         let a: u64 = kani::any();
         let b: u64 = kani::any();
         kani::assume(a != 0 && b != 0 && a != b && a != u64::MAX && b != u64::MAX);
-        let ra = k.store_code_with_id(Addr::unchecked("c"), a, Box::new(NoCode));
-        let rb = k.store_code_with_id(Addr::unchecked("c"), b, Box::new(NoCode));
-        assert!(matches!(ra, Ok(x) if x == a));
-        assert!(matches!(rb, Ok(x) if x == b));
+        core::mem::forget(k.store_code_with_id(Addr::unchecked("c"), a, Box::new(NoCode)));
+        core::mem::forget(k.store_code_with_id(Addr::unchecked("c"), b, Box::new(NoCode)));
         let id = k.store_code(Addr::unchecked("c"), Box::new(NoCode));
         let max = if a > b { a } else { b };
         kani::cover!(a > b, "first id larger");
         kani::cover!(a < b, "second id larger");
         assert!(id == max + 1);
-        assert!(k.contract_code(a).is_ok() && k.contract_code(b).is_ok() && k.contract_code(id).is_ok());
-        // unknown ids and zero are not served
-        let q: u64 = kani::any();
-        if q != a && q != b && q != id {
-            assert!(k.contract_code(q).is_err());
-        }
-        core::mem::forget(ra);
-        core::mem::forget(rb);
+        assert!(k.code_data.len() == 3);
         core::mem::forget(k);
     }
 }
